@@ -1,5 +1,6 @@
 import Crem.Proofs.Limits
 import Crem.Proofs.Archive
+import Crem.Proofs.CatchmentSums
 import Crem.Properties.C10
 /-!
 # C03 — a configured variable limit is never exceeded by any held or reported state
@@ -17,6 +18,13 @@ The theorems say that validity, once it holds at the optimiser's starting extrem
   limit-respecting randomisation of a copy of the current state, and return-to-base only loads
   archived action sets, whose values are those they were archived with (C01).
 
+The `…_from_start` theorems compose these END TO END from the optimiser's starting extreme: the only
+hypothesis about states is the property's own premise — the limit is attainable at the starting extreme,
+`Valid D (initialise D .random)` (everything inactive under a cost limit, everything active under a pollutant
+limit); the state after `Explorer.Initialise()` is *derived* (`kirk_initial_valid`, `exInv_initial`), not assumed.
+
+`Valid` is spelled out by `valid_spelled_out`: every limited variable's total is ≤ its configured maximum.
+
 All for every dataset satisfying the decidable hypotheses, every limit value, every iteration count
 and every sequence of random choices.  What is written to output files / served by the engine is
 re-evaluated by the correspondence suites (`saved-runs`, `engine-summaries`), not by a theorem.
@@ -27,6 +35,10 @@ open Crem.Archive Crem.Suppa
 theorem outcomeState_eq (o : LoopOutcome) : outcomeState o = o.state := by cases o <;> rfl
 
 variable {D : Data}
+
+/-- what `Valid` says, spelled out: every variable with a configured maximum has its total within it -/
+theorem valid_spelled_out (D : Data) (s : State) :
+    Valid D s ↔ ∀ v m, maxOf D v = some m → total s v ≤ m := valid_iff D s
 
 /-- `Randomize()` keeps a valid state valid — both limit-seeking loops and the unbounded variant -/
 theorem randomize_valid (hI : InitConsistent D) (hK : KeysDistinct D.acts) {s : State}
@@ -79,6 +91,26 @@ theorem kirk_run_valid (hI : InitConsistent D) (hK : KeysDistinct D.acts) :
   | x :: xs, s, hc, hv, hx => by
     have h := kirk_iter_valid hI hK hc hv (hx x (by simp)) x.2
     exact kirk_run_valid hI hK xs _ h.1 h.2 (fun y hy => hx y (by simp [hy]))
+
+/-- the state the single-objective explorer holds after `Explorer.Initialise()`
+(`Model().Initialise(Random)` then `Model().Randomize()`), for the randomisation's draws -/
+def kirkStart (D : Data) (draws : List Nat) : State := (randomize D (initialise D .random) draws).state
+
+/-- … is canonical and, if the limit is attainable at the starting extreme, valid -/
+theorem kirk_initial_valid (hI : InitConsistent D) (hK : KeysDistinct D.acts)
+    (hstart : Valid D (initialise D .random)) (draws : List Nat) :
+    Canon D (kirkStart D draws) ∧ Valid D (kirkStart D draws) :=
+  ⟨randomize_canon hI.facts hK (initialise_canon hI hK .random) draws, initial_state_valid hI hK hstart draws⟩
+
+/-- **end to end, single-objective annealer**: if the limit is attainable at the optimiser's starting extreme,
+then after `Explorer.Initialise()` and after every number of iterations — for every sequence of randomisation
+draws, picked actions and Metropolis decisions — the state the annealer holds is within every limit -/
+theorem kirk_run_valid_from_start (hI : InitConsistent D) (hK : KeysDistinct D.acts)
+    (hstart : Valid D (initialise D .random)) (draws : List Nat) (steps : List (Nat × Bool))
+    (hsteps : ∀ x ∈ steps, x.1 < D.acts.length) :
+    Valid D (steps.foldl (fun s x => kirkIter D s x.1 x.2) (kirkStart D draws)) :=
+  have h := kirk_initial_valid hI hK hstart draws
+  kirk_run_valid hI hK steps _ h.1 h.2 hsteps
 
 /-! ### multi-objective annealer -/
 
@@ -165,16 +197,107 @@ theorem suppa_run_valid {α : Type} (hI : InitConsistent D) (hK : KeysDistinct D
   | [], _, h => h
   | i :: is, e, h => suppa_run_valid hI hK A P is _ (suppa_iter_valid hI hK A P e i h)
 
-/-- every member of the solution set respects the limit, stated on the archived objective vector -/
-theorem archive_members_valid {α : Type} {e : Ex α State} (h : ExInv D e) :
-    ∀ m ∈ e.archive, ∃ t, Valid D t ∧ m.vec = keysOf t ∧ m.act = t.flags := by
+/-- position of a variable's order key in an archived objective vector (`keysOf`: the variable names sorted) -/
+def vecIndex : VarId → Nat
+  | .dn => 0 | .ic => 1 | .oc => 2 | .pn => 3 | .sed => 4 | .tn => 5
+
+/-- the order key `keysOf` stores for variable `v` is `total · 10^precision`, floored -/
+theorem keysOf_getElem (s : State) (v : VarId) :
+    (keysOf s)[vecIndex v]? = some ((total s v * (10 ^ reportingPrecision v : Nat)).floor) := by
+  cases v <;> rfl
+
+/-- **every member of the solution set respects the limit**, stated on what an archive entry *is*: an action set
+and an objective vector.  For every member `m`: the FRESH model at `m.act` (the valuation the saver / engine
+re-derive, C01) is within every limit, `m.vec` is exactly that model's objective vector (so the vector is tied to
+the set), and the observable inequality holds — the stored component of every limited variable, read back at its
+reporting precision, is ≤ the configured maximum. -/
+theorem archive_members_valid {α : Type} {e : Ex α State} (hI : InitConsistent D) (hK : KeysDistinct D.acts)
+    (h : ExInv D e) :
+    ∀ m ∈ e.archive,
+      (setAll D (init D) m.act).flags = m.act ∧
+      Valid D (setAll D (init D) m.act) ∧
+      m.vec = keysOf (setAll D (init D) m.act) ∧
+      ∀ v mx, maxOf D v = some mx →
+        ∃ k : Int, m.vec[vecIndex v]? = some k ∧ (k : Rat) / (10 ^ reportingPrecision v : Nat) ≤ mx := by
   intro m hm
-  obtain ⟨t, _, htv, rfl⟩ := h.arch m hm
-  exact ⟨t, htv, rfl, rfl⟩
+  obtain ⟨t, htc, htv, rfl⟩ := h.arch m hm
+  show (setAll D (init D) t.flags).flags = t.flags ∧ Valid D (setAll D (init D) t.flags) ∧
+    keysOf t = keysOf (setAll D (init D) t.flags) ∧ _
+  have hfl := setAll_init_flags hI hK t.flags htc.len
+  have hfc := setAll_canon hI.facts hK (canon_init hI) t.flags
+  have hs : SameVals t (setAll D (init D) t.flags) := htc.sameVals hfc hfl
+  refine ⟨hfl, (hs.valid (D := D)).mpr htv, ?_, ?_⟩
+  · unfold keysOf
+    rw [hs.dnT, hs.icT, hs.ocT, hs.pnT, hs.sedT, hs.tnT]
+  · intro v mx hmx
+    refine ⟨_, keysOf_getElem t v, ?_⟩
+    rw [floor_key_of_onGrid (htc.total_onGrid v)]
+    exact (valid_iff D t).mp htv v mx hmx
+
+/-- the state the multi-objective explorer is in after `Explorer.Initialise()`: the current model initialised at
+the starting extreme and randomised, the potential model initialised only, the solution set empty
+(`modelArchive.Initialise()`); temperature, countdown, step and counters are whatever was configured.
+If the limit is attainable at the starting extreme, this state satisfies the explorer invariant. -/
+theorem exInv_initial {α : Type} (hI : InitConsistent D) (hK : KeysDistinct D.acts)
+    (hstart : Valid D (initialise D .random)) (draws : List Nat) (e : Ex α State)
+    (hcur : e.current = (randomize D (initialise D .random) draws).state)
+    (hpot : e.potential = initialise D .random) (harch : e.archive = []) : ExInv D e where
+  cur := by rw [hcur]; exact randomize_canon hI.facts hK (initialise_canon hI hK .random) draws
+  curValid := by rw [hcur]; exact initial_state_valid hI hK hstart draws
+  pot := by rw [hpot]; exact initialise_canon hI hK .random
+  arch := by rw [harch]; intro m hm; cases hm
+
+/-- **end to end, multi-objective annealer**: if the limit is attainable at the optimiser's starting extreme, then
+after `Explorer.Initialise()` and after every number of iterations — for every sequence of randomisation draws and
+per-iteration inputs (candidate draws, uniform draws, return-to-base picks), every arithmetic and every explorer
+parameter — the current model is within every limit, and so is every member of the solution set (as the fresh
+model at its action set, with the stored vector being that model's, component by component within the maximum) -/
+theorem suppa_run_valid_from_start {α : Type} (hI : InitConsistent D) (hK : KeysDistinct D.acts)
+    (A : Arith α) (P : Params α) (hstart : Valid D (initialise D .random)) (draws : List Nat) (e : Ex α State)
+    (hcur : e.current = (randomize D (initialise D .random) draws).state)
+    (hpot : e.potential = initialise D .random) (harch : e.archive = []) (ins : List (In α)) :
+    Valid D (ins.foldl (fun e i => (iterate A (modelOps D) P e i).1) e).current ∧
+    ∀ m ∈ (ins.foldl (fun e i => (iterate A (modelOps D) P e i).1) e).archive,
+      (setAll D (init D) m.act).flags = m.act ∧
+      Valid D (setAll D (init D) m.act) ∧
+      m.vec = keysOf (setAll D (init D) m.act) ∧
+      ∀ v mx, maxOf D v = some mx →
+        ∃ k : Int, m.vec[vecIndex v]? = some k ∧ (k : Rat) / (10 ^ reportingPrecision v : Nat) ≤ mx :=
+  have h := suppa_run_valid hI hK A P ins e (exInv_initial hI hK hstart draws e hcur hpot harch)
+  ⟨h.curValid, archive_members_valid hI hK h⟩
 
 /-! ### examples: non-vacuity (tests, labelled as such) -/
 
 -- the C10 example dataset with an implementation-cost limit: the all-inactive start is valid
 example : Valid exLim (initialise exLim .random) := by unfold Valid; decide +kernel
+
+/-- the deactivation loop (a POLLUTANT limit): the dataset of C01 with sediment limited to 13 t and no cost limit.
+The optimiser starts with everything active (6.905 t ≤ 13: the premise holds; with nothing active it would be
+36.44 t).  `Randomize()` drawing actions 0, 2: de-activating 0 gives 9.667 t (the loop's conservative check on the
+already applied change sees 9.667 + 2.762 = 12.429 ≤ 13: kept), de-activating 2 gives 22.762 t: invalid, put back,
+"solution close to limit found".  From there the single-objective annealer proposing action 2 (rejected: reverted)
+and action 0 (re-activation, accepted) stays within the limit. -/
+def exPol : Data := { exData with maxIC := none, maxSed := some 13 }
+
+example : InitConsistent exPol ∧ KeysDistinct exPol.acts ∧
+    hasCostLimit exPol = false ∧ hasPollutantLimit exPol = true := by decide +kernel
+
+example : Valid exPol (initialise exPol .random) ∧ ¬ Valid exPol (init exPol) := by unfold Valid; decide +kernel
+
+example : (initialise exPol .random).flags = [true, true, true] ∧
+    total (initialise exPol .random) .sed = 1381/200 ∧
+    (kirkStart exPol [0, 2]).flags = [false, true, true] ∧
+    total (kirkStart exPol [0, 2]) .sed = 9667/1000 ∧
+    (match randomize exPol (initialise exPol .random) [0, 2] with | .found _ => true | _ => false) = true ∧
+    -- the attempt that was put back really was over the limit
+    total (setAll exPol (init exPol) [false, true, false]) .sed = 11381/500 ∧
+    changeIsValid exPol (propose exPol (kirkStart exPol [0, 2]) 2) = false ∧
+    (kirkIter exPol (kirkStart exPol [0, 2]) 2 true).flags = [false, true, true] ∧
+    (kirkIter exPol (kirkStart exPol [0, 2]) 0 true).flags = [true, true, true] := by decide +kernel
+
+/-- the hypotheses of `exInv_initial` / `suppa_run_valid_from_start` are satisfiable: the multi-objective explorer's
+state after `Initialise()` on that dataset (any temperature / countdown) satisfies the invariant -/
+example : ExInv exPol (⟨kirkStart exPol [0, 2], initialise exPol .random, [], (1 : Rat), 5, 1, 1, 0⟩ : Ex Rat State) :=
+  exInv_initial (by decide +kernel) (by decide +kernel) (by unfold Valid; decide +kernel) [0, 2] _ rfl rfl rfl
 
 end Crem.Catchment
